@@ -7,7 +7,7 @@ import torch
 from . import wq
 
 EVIDENCE = dict(
-    bounds="value clauses (RERR): rows/groups of 3 symbolic finite elements, case split on which element is the absmax (8-bit) or on the ordering (2/4-bit), float16/bfloat16/float32, all six qtypes, weights (AbsmaxOptimizer/MaxOptimizer via quantize_weight) and activations (absmax_scale); side conditions and locality (ALG support + permutation): ranks 1..4, dims <= 3 (plus shapes (L+1,2), (2,L+1), (2L+1,1), (L/2+1,2), (2,L/2+1) for every integer literal L in 24..1024 that the current source of the optimizers, quantizers, grouping and qweight/qactivation code uses as a possible size threshold - none on the pinned tree), axis in {0,-1} (and None for absmax_scale), every divisor group size; histories: a weight of another float dtype quantized first through the process-wide default optimizers (4 dtype orders), compared with a run in a forked process without that history",
+    bounds="value clauses (RERR): rows/groups of 3 symbolic finite elements, case split on which element is the absmax (8-bit) or on the ordering (2/4-bit), float16/bfloat16/float32, all six qtypes, weights (AbsmaxOptimizer/MaxOptimizer via quantize_weight) and activations (absmax_scale); side conditions and locality (ALG support + permutation): ranks 1..4, dims <= 3 (plus shapes (L+1,2), (2,L+1), (2L+1,1), (L/2+1,2), (2,L/2+1) for every integer literal L in 24..1024 that the current source of the optimizers, quantizers, grouping and qweight/qactivation code uses as a possible size threshold - none on the pinned tree), axis in {0,-1} (and None for absmax_scale), every divisor group size; histories: a weight of another float dtype quantized first through the process-wide default optimizers (4 dtype orders), compared with a run in a forked process without that history; same tensor object quantized, rewritten in place in five ways (through .data, by assignment to .data, copy_ / view write under no_grad, Parameter.data) and quantized again, compared with a fresh tensor of the same symbolic content in a forked process",
     outside="custom optimizers; shapes beyond the bounds; CUDA/MPS",
     assumptions=[
         "RERR standard model; overflow of absmax/qmax or max-min is the C16 clause (BIT)",
@@ -36,6 +36,7 @@ def cases(tier, seed):
     # histories: the default optimizers are process-wide objects; a scale must not depend on what was quantized before
     for q in ALLQ:
         out.append(dict(kind="history", qtype=q))
+        out.append(dict(kind="same-object", qtype=q))
     shapes = _shapes(tier) + wq.quantizer_threshold_shapes()  # + shapes straddling the integer size thresholds of the current source (none on the pinned tree)
     n = 5 if tier == "quick" else 10
     for dt in ("float16", "float32") if tier == "quick" else ("float16", "bfloat16", "float32"):
@@ -140,6 +141,76 @@ def _history_terms(qtype_name, first, second, res=None):
     return out
 
 
+REWRITES = ["data-copy", "data-assign", "copy-nograd", "param-data-copy", "view-write"]
+
+
+def _rewrite(w, new, how):
+    """replace the content of the tensor OBJECT w by `new` the way user code does between two quantizations (several of these do
+    not bump the version counter, none changes the identity of the object)"""
+    if how in ("data-copy", "param-data-copy"):
+        w.data.copy_(new)
+    elif how == "data-assign":
+        w.data = new.clone()
+    elif how == "copy-nograd":
+        with torch.no_grad():
+            w.copy_(new)
+    elif how == "set":
+        with torch.no_grad():
+            w.set_(new.clone())
+    elif how == "view-write":
+        with torch.no_grad():
+            w.detach().view(-1)[:] = new.reshape(-1)
+    else:
+        raise KeyError(how)
+
+
+def _same_object_run(qtype_name, dtname, how, first_vals, second, axes=(0, -1), symbolic=True, res=None):
+    """quantize a tensor object, rewrite its content in place, quantize the SAME object again; returns the second call's scale /
+    zero-point / dequantized terms (strings) when symbolic, their values otherwise.  first_vals None: no first call, fresh object."""
+    from symt import api
+    from symt.api import Session
+
+    from optimum.quanto import quantize_weight
+
+    q_t = wq.qt(qtype_name)
+    dt = api.DT[dtname]
+    new = second.to(dt)
+    param = how == "param-data-copy"
+
+    def body(m):
+        if first_vals is None:
+            w = new.clone()
+            if m is not None:
+                m.symbolic(w, "w")
+        else:
+            w = torch.tensor(first_vals, dtype=dt)
+            if param:
+                w = torch.nn.Parameter(w)
+            with torch.no_grad():
+                for ax in axes:
+                    quantize_weight(w, q_t, ax).dequantize()
+            if m is not None:
+                m.symbolic(new, "w")
+            _rewrite(w, new, how)
+        out = []
+        with torch.no_grad():
+            for ax in axes:
+                q = quantize_weight(w, q_t, ax)
+                d = q.dequantize()
+                if m is not None:
+                    out += [t.pretty(14) for t in m.read(q._scale).reshape(-1)]
+                    if getattr(q, "_zeropoint", None) is not None:
+                        out += [t.pretty(14) for t in m.read(q._zeropoint).reshape(-1)]
+                else:
+                    out.append((q._scale.double().reshape(-1).tolist(), d.double().reshape(-1).tolist()))
+        return out
+
+    if symbolic:
+        with Session(res) as m:
+            return body(m)
+    return body(None)
+
+
 def run_case(case, res):
     import numpy as np
     import z3
@@ -164,6 +235,21 @@ def run_case(case, res):
                 d2 = api.DT[second]
                 for vals in ([[0.0, 0.0], [1e-6, 2e-6]], [[3e-7, -1e-7], [5e-6, 2e-6]], [[0.3, -0.2], [0.11, 0.4]], [[1e-4, 2e-5], [60000.0, 3.0]]):
                     res.candidate("history", "ALG", dict(kind="history", qtype=case["qtype"], first=first, second=second, w=api.enc_tensor(torch.tensor(vals, dtype=d2)), source="history"), exact=False, cap=8)
+        return
+    if case["kind"] == "same-object":
+        first_vals = [[0.7, -0.1], [0.2, 0.9]]
+        for dtname in ("float32", "float16"):
+            second = torch.tensor([[0.03, -0.02], [0.011, 0.004]])
+            # one axis per history: a one-entry memo would be refreshed by alternating configurations
+            for ax in (0, -1):
+                fresh = api.fresh_fork(lambda: _same_object_run(case["qtype"], dtname, "data-copy", None, second, axes=(ax,)))
+                for how in REWRITES:
+                    after = api.fresh_fork(lambda: _same_object_run(case["qtype"], dtname, how, first_vals, second, axes=(ax,)))
+                    same = fresh == after
+                    res.query("scale-derived-from-current-content-of-the-tensor-object", "ALG", "unsat" if same else "sat", 0.0, sub=f"{dtname} {how} axis={ax}", nvars=4)
+                    if not same:
+                        for vals in (second.tolist(), [[5.0, -7.0], [0.25, 12.0]], [[0.0, 0.0], [1e-3, 2e-3]]):
+                            res.candidate("same-object", "ALG", dict(kind="same-object", qtype=case["qtype"], dtype=dtname, how=how, axis=ax, first=first_vals, w=api.enc_tensor(torch.tensor(vals, dtype=api.DT[dtname])), source="same-object"), exact=False, cap=8)
         return
     dt = api.DT[case["dtype"]]
     q_t = wq.qt(case["qtype"])
@@ -401,6 +487,11 @@ def replay(rec):
     w = api.dec_tensor(inp["w"])
     q_t = wq.qt(inp["qtype"])
     src = inp["source"]
+    if src == "same-object":
+        fresh = api.fresh_fork(lambda: _same_object_run(inp["qtype"], inp["dtype"], inp["how"], None, w, axes=(inp.get("axis", 0),), symbolic=False))
+        after = api.fresh_fork(lambda: _same_object_run(inp["qtype"], inp["dtype"], inp["how"], inp["first"], w, axes=(inp.get("axis", 0),), symbolic=False))
+        bad = repr(fresh) != repr(after)
+        return bad, f"a tensor object quantized once, rewritten in place ({inp['how']}) with {w.tolist()} and quantized again ({inp['qtype']}) gives (scale, dequantized) {after}; a fresh tensor with the same content gives {fresh}", None
     if src == "history":
         # replays run in a fresh process: reproduce the history, then compare with what a process without history computes
         def run(first):
